@@ -1,3 +1,5 @@
+import RsyncModel.MapFile
+import RsyncModel.PureTie
 import RsyncModel.RoundTripHonest
 import RsyncModel.Checksum
 /-! # C02 — delta encoding and decoding are exact for every basis, target and block layout
@@ -87,5 +89,52 @@ theorem roundtrip (Hs Hfile : Bytes → Bytes) (blm1 cs : Nat) (basis t rest : B
 
 /-- the block length the real generator picks is within the sender's accepted range (regenerated constants) -/
 theorem generator_layout_accepted : Gen.Consts.blockSize ≤ maxBlockLen ∧ Gen.Consts.checksumLength ≤ maxCsLen := by decide
+
+
+/-! ### Tie to the source (regenerated translation `Gen.Pure`, see `tools/extract/pure.go`) -/
+
+/-- **`rsyncchecksum.Checksum1` as the source has it is the model's `checksum1`** — the loops are
+translated from /repo on every run; the theorem also shows that no index is out of range and the
+loops end within `len(buf)` iterations, for every buffer. -/
+theorem source_checksum1 (buf : Bytes) : Gen.Pure.Checksum1 buf = .ok (checksum1 buf) :=
+  PureTie.checksum1_tied buf
+
+/-- **The sender reads what is in the file**: `mapStruct.ptr` (internal/sender/fileio.go, translated
+from /repo on every run; only its final read loop is a hand model) serves *every* sequence of
+requests inside the file — sliding forward, jumping back by the pending literal run, crossing the
+256 KiB window any number of times, growing the window — with exactly the file's bytes, never an
+error, never a slice out of range, never a read past the end of the file. So the literal data and
+the whole-file hash the sender computes are computed from the file's real content. -/
+theorem source_window_exact (file : Bytes) (dw : Int) (reqs : List (Int × Int32))
+    (h : ∀ r ∈ reqs, MapFile.Req.ok file r) :
+    MapFile.serve file ⟨file.length, 0, 0, [], 0, 0, dw⟩ reqs
+      = .ok (reqs.map fun r => (file.drop r.1.toNat).take r.2.toInt.toNat) :=
+  MapFile.serve_from_start file dw reqs h
+
+/-- **Both sides give block `i` the same length and the receiver reads it at `i · blockLength`**
+(computed in 64 bits): `receiveSums` (sender) and `receiveData` (receiver), both translated from
+/repo, agree with the model's `blockLen` for every validated header and every index. -/
+theorem source_block_span (h : PureTie.Head32) (hok : h.ok) (cs : Nat) (tok : Int32) (hneg : tok.toInt < 0) :
+    let idx := (-(tok.toInt + 1)).toNat
+    Gen.Pure.refSpan tok h.count h.bl h.rem =
+      (-(tok + 1), ((idx * (h.toHead cs).bl : Nat) : Int), Int32.ofInt (Delta.blockLen (h.toHead cs) idx)) ∧
+    (∀ (i : Int32) (x : Int), 0 ≤ i.toInt →
+      Gen.Pure.sumLen i h.count h.bl h.rem x = (Delta.blockLen (h.toHead cs) i.toInt.toNat : Int)) :=
+  ⟨PureTie.refSpan_tied h hok cs tok hneg, fun i x hi => PureTie.sumLen_tied h hok cs i hi x⟩
+
+/-- the sender's window length and the length it demands of a candidate block are the same quantity -/
+theorem source_window_length (bl : Int32) (size offset k0 : Int) :
+    Gen.Pure.candLen bl size offset = Gen.Pure.chunkLen bl size offset k0 ∧
+    Gen.Pure.chunkLen bl size offset k0 = min bl.toInt (size - offset) :=
+  ⟨PureTie.candLen_eq_chunkLen bl size offset k0, PureTie.chunkLen_tied bl size offset k0⟩
+
+/-- the block layout the generator chooses (`SumSizesSqroot`, translated) is the model's `sumSizes` -/
+theorem source_sum_sizes (len : Nat) (h : Nat.sqrt len < 2147483648)
+    (hc : (len + ((Delta.sumSizes len).bl - 1)) / (Delta.sumSizes len).bl < 2147483648) :
+    Gen.Pure.sumSizesCount (len : Int) (Gen.Pure.SumSizesSqroot (len : Int))
+      = .ok (Int32.ofInt ((Delta.sumSizes len).count : Int), Int32.ofInt ((Delta.sumSizes len).rem : Int),
+             Gen.Pure.SumSizesSqroot (len : Int), (Gen.Consts.checksumLength : Int)) ∧
+    (Gen.Pure.SumSizesSqroot (len : Int)).toInt = ((Delta.sumSizes len).bl : Int) :=
+  ⟨PureTie.sumSizes_count_tied len h hc, PureTie.sumSizes_blockLength_tied len h⟩
 
 end C02
